@@ -163,7 +163,7 @@ def byLabel (w : W) (e : Ev) : List (List WA) :=
     [[.chk fun w => w.st.hs.all (fun x => (x.pump == .off || x.pump == .done) && (x.loop == .off || x.loop == .done) &&
                       (x.hc == .off || x.hc == .done)) &&
                     (w.st.watch == .off || w.st.watch == .done) && (w.st.run == .idle || w.st.run == .ret || w.st.run == .failed)]]
-  | "go" | "rel" | "fin" | "sgo" | "crash" | "scd" => [[]]
+  | "go" | "rel" | "fin" | "sgo" | "crash" | "scd" | "ahd" | "ahn" | "pol" => [[]]
   | _ => []
 
 def execSeq (w : W) : List WA → Option W
